@@ -696,9 +696,14 @@ func c02ErrorDiscipline(c *Ctx) {
 	for _, n := range []string{"TrzszFilter.downloadFiles", "TrzszFilter.uploadFiles", "recvFiles", "sendFiles"} {
 		reach[c.fn(n)] = true
 	}
+	errDiscipline(c, reach, nil, 80)
+}
+
+// errDiscipline applies the error rule to every function of `reach` (except `skip` and the best-effort table).
+func errDiscipline(c *Ctx, reach map[*ssa.Function]bool, skip map[*ssa.Function]bool, minCalls int) {
 	nCalls := 0
 	for _, f := range c.AllFns {
-		if !reach[f] {
+		if !reach[f] || skip[f] {
 			continue
 		}
 		fname := c.fnName(f)
@@ -715,6 +720,10 @@ func c02ErrorDiscipline(c *Ctx) {
 			if !tracked {
 				if callee := call.Call.StaticCallee(); callee != nil && c.inPkg(callee) && errIndex(callee.Signature) >= 0 {
 					tracked = true
+				}
+				if callee := closureInCell(call.Call.Value); callee != nil && c.inPkg(callee) && errIndex(callee.Signature) >= 0 {
+					tracked = true // a local closure called through its variable (pipelineSendData's deliver)
+					id = "closure " + c.fnName(callee)
 				}
 				if call.Call.IsInvoke() && errIndex(call.Call.Signature()) >= 0 {
 					switch call.Call.Method.Name() {
@@ -753,6 +762,10 @@ func c02ErrorDiscipline(c *Ctx) {
 				return
 			}
 			allOK := true
+			if len(u.tests) == 0 && !u.returned && !u.passed {
+				allOK = false
+				c.bad(key+".only-compared", c.ipos(call), "the error result of "+id+" is only compared with specific values (e.g. io.EOF) and never tested against nil, returned or passed on: any other error is ignored")
+			}
 			for _, t := range u.tests {
 				okE, why := failEdge(c, t.Block(), nonNilEdge(t))
 				if !okE {
@@ -765,7 +778,7 @@ func c02ErrorDiscipline(c *Ctx) {
 			}
 		})
 	}
-	if nCalls < 80 {
+	if nCalls < minCalls {
 		c.undecided("error-discipline/sites", "fewer tracked call sites than expected")
 	}
 }
